@@ -140,13 +140,21 @@ func init() {
 			outf.Write([]byte("\n"))
 		}
 		startFail := 0
+		// once the verdict is clear (8 graphs on which Extract did not return) the remaining graphs are
+		// not started: every further hang would cost 10-100 s
+		notReturned, notRun := 0, 0
 		pc := &poolCfg{Kind: "incgraph", Workers: e.Workers, Silence: 130 * time.Second,
+			Stop:    func() bool { return notReturned >= 8 },
+			Skipped: func(job int) { notRun++; write(map[string]any{"i": job, "class": "NotRun"}) },
 			OnResult: func(job int, line []byte) {
 				var v map[string]any
 				if json.Unmarshal(line, &v) != nil {
 					return
 				}
 				reported[job] = true
+				if cl, _ := v["class"].(string); cl != "Returned" {
+					notReturned++
+				}
 				write(v)
 			},
 			OnDeath: func(job int, jobRaw []byte, d death) []byte {
@@ -168,6 +176,7 @@ func init() {
 					class = "OOM"
 				}
 				reported[job] = true
+				notReturned++
 				write(map[string]any{"i": job, "class": class, "detail": "the process died (not recoverable): " + d.Why + "\n" + d.Stderr, "fatal": true})
 				return nil
 			}}
